@@ -441,12 +441,38 @@ def h2_callsites(src, all_twins, log):
     return src
 
 
+def sep_blocks(src, log):
+    """S1: a loop immediately followed by a bare `{ .. }` block statement confuses Verus's clause parser;
+    put an empty statement `;` between them (no semantic content)."""
+    pos = 0
+    while True:
+        msk = mask(src)
+        m = re.compile(r'\bwhile\b').search(msk, pos)
+        if not m:
+            return src
+        k = m.end()
+        depth = 0
+        while not (msk[k] == '{' and depth == 0):
+            if msk[k] in '([':
+                depth += 1
+            elif msk[k] in ')]':
+                depth -= 1
+            k += 1
+        c = match_close(msk, k)
+        nxt = re.compile(r'\S').search(msk, c + 1)
+        if nxt and msk[nxt.start()] == '{':
+            src = src[:c + 1] + ';' + src[c + 1:]
+            log.append('S1 empty statement between a loop and a following bare block')
+        pos = m.end()
+
+
 def extract_module(path, log):
     src = open(path).read()
     src = apply_drops(src, log)
     src = hoist_nested(src, log)
     src = misc_rewrites(src, log)
     src = rewrite_loops(src, log)
+    src = sep_blocks(src, log)
     src, twins = h2_twins(src, log)
     return src, twins
 
